@@ -7,18 +7,55 @@ set_option linter.unusedSimpArgs false
 namespace ChythonModel.Proofs.C03
 open ChythonModel.Model.C03 ChythonModel.Spec.Smiles
 
+/-- atom payload of a tree with ring closures: the atom (aromatic?, token) and the ring bonds written after it -/
+abbrev B := A × List RingBond
+
+/-- aromaticity of a payload -/
+def aromB (b : B) : Bool := b.1.1
+
+def symTokB : Sym B → Tok
+  | .atom b => .atom (tyOf b.1) b.1.2
+  | .bond o => .bond o
+  | .dir b => .dir b
+  | .dot => .dot
+  | .lpar => .lpar
+  | .rpar => .rpar
+  | .ring n => .cyc n
+
+def toToksB (l : List (Sym B)) : List Tok := l.map symTokB
+
+theorem toToksB_printLink (l : Link) : toToksB (printLink l) = toToks (printLink l) := by
+  cases l <;> rfl
+
+theorem toToksB_printRings : ∀ (r : List RingBond), toToksB (printRings r) = toToks (printRings r)
+  | [] => rfl
+  | rb :: tl => by
+    have ih := toToksB_printRings tl
+    obtain ⟨sym, n⟩ := rb
+    cases sym <;> simp [printRings, printRing, toToksB, toToks, symTokB, symTok] at ih ⊢ <;> exact ih
+
+theorem toToksB_noOther (l : List (Sym B)) : ∀ t ∈ toToksB l, noOther t = true := by
+  intro t ht
+  simp only [toToksB, List.mem_map] at ht
+  obtain ⟨s, _, rfl⟩ := ht
+  cases s <;> rfl
+
+theorem linkBonds_B (l : Link) (n p : Nat) (a pa : B) :
+    linkBonds aromB l n p a pa = linkBonds (·.1) l n p a.1 pa.1 := by
+  cases l <;> rfl
+
 def toPB : RSym → Option PB
   | .none => none
   | .order o => some (.bond o)
   | .dir b => some (.dir b)
 
 /-- the parser's `cycles` dict and the spec's table of open rings describe the same open rings, in the same order -/
-def CycRel : List (Nat × Cyc) → List (OpenRing A) → Prop
+def CycRel : List (Nat × Cyc) → List (OpenRing B) → Prop
   | [], [] => True
   | (k, c) :: tl, o :: tl' => k = o.num ∧ c.atom = o.atom ∧ c.bond = toPB o.sym ∧ CycRel tl tl'
   | _, _ => False
 
-theorem cycRel_lookup_none : ∀ (cs : List (Nat × Cyc)) (tbl : List (OpenRing A)) (k : Nat), CycRel cs tbl →
+theorem cycRel_lookup_none : ∀ (cs : List (Nat × Cyc)) (tbl : List (OpenRing B)) (k : Nat), CycRel cs tbl →
     findRing k tbl = none → lookupNat k cs = none
   | [], [], _, _, _ => rfl
   | [], _ :: _, _, h, _ => by cases h
@@ -34,7 +71,7 @@ theorem cycRel_lookup_none : ∀ (cs : List (Nat × Cyc)) (tbl : List (OpenRing 
       simp only [hne, Bool.false_eq_true, if_false]
       exact cycRel_lookup_none tl tl' k h4 hf
 
-theorem cycRel_lookup_some : ∀ (cs : List (Nat × Cyc)) (tbl : List (OpenRing A)) (k : Nat) (o : OpenRing A),
+theorem cycRel_lookup_some : ∀ (cs : List (Nat × Cyc)) (tbl : List (OpenRing B)) (k : Nat) (o : OpenRing B),
     CycRel cs tbl → findRing k tbl = some o →
     ∃ c, lookupNat k cs = some c ∧ c.atom = o.atom ∧ c.bond = toPB o.sym
   | [], [], _, _, _, hf => by simp [findRing] at hf
@@ -54,7 +91,7 @@ theorem cycRel_lookup_some : ∀ (cs : List (Nat × Cyc)) (tbl : List (OpenRing 
       simp only [hne, Bool.false_eq_true, if_false]
       exact cycRel_lookup_some tl tl' k o h4 hf
 
-theorem cycRel_erase : ∀ (cs : List (Nat × Cyc)) (tbl : List (OpenRing A)) (k : Nat), CycRel cs tbl →
+theorem cycRel_erase : ∀ (cs : List (Nat × Cyc)) (tbl : List (OpenRing B)) (k : Nat), CycRel cs tbl →
     CycRel (eraseKey k cs) (eraseRing k tbl)
   | [], [], _, _ => trivial
   | [], _ :: _, _, h => by cases h
@@ -68,7 +105,7 @@ theorem cycRel_erase : ∀ (cs : List (Nat × Cyc)) (tbl : List (OpenRing A)) (k
     · simp only [hk, Bool.false_eq_true, if_false]
       exact ⟨rfl, h2, h3, cycRel_erase tl tl' k h4⟩
 
-theorem cycRel_snoc : ∀ (cs : List (Nat × Cyc)) (tbl : List (OpenRing A)) (k : Nat) (c : Cyc) (o : OpenRing A),
+theorem cycRel_snoc : ∀ (cs : List (Nat × Cyc)) (tbl : List (OpenRing B)) (k : Nat) (c : Cyc) (o : OpenRing B),
     CycRel cs tbl → k = o.num → c.atom = o.atom → c.bond = toPB o.sym → CycRel (cs ++ [(k, c)]) (tbl ++ [o])
   | [], [], _, _, _, _, h1, h2, h3 => ⟨h1, h2, h3, trivial⟩
   | [], _ :: _, _, _, _, h, _, _, _ => by cases h
@@ -77,15 +114,15 @@ theorem cycRel_snoc : ∀ (cs : List (Nat × Cyc)) (tbl : List (OpenRing A)) (k 
     obtain ⟨g1, g2, g3, g4⟩ := h
     exact ⟨g1, g2, g3, cycRel_snoc tl tl' k c o g4 h1 h2 h3⟩
 
-theorem cycRel_nil_left : ∀ (tbl : List (OpenRing A)), CycRel [] tbl → tbl = []
+theorem cycRel_nil_left : ∀ (tbl : List (OpenRing B)), CycRel [] tbl → tbl = []
   | [], _ => rfl
   | _ :: _, h => by cases h
 
-theorem cycRel_nil_right : ∀ (cs : List (Nat × Cyc)), CycRel cs ([] : List (OpenRing A)) → cs = []
+theorem cycRel_nil_right : ∀ (cs : List (Nat × Cyc)), CycRel cs ([] : List (OpenRing B)) → cs = []
   | [], _ => rfl
   | _ :: _, h => by cases h
 
-theorem mem_eraseRing {k : Nat} : ∀ {tbl : List (OpenRing A)} {o : OpenRing A}, o ∈ eraseRing k tbl → o ∈ tbl
+theorem mem_eraseRing {k : Nat} : ∀ {tbl : List (OpenRing B)} {o : OpenRing B}, o ∈ eraseRing k tbl → o ∈ tbl
   | [], _, h => by simp [eraseRing] at h
   | o' :: tl, o, h => by
     unfold eraseRing at h
@@ -96,7 +133,7 @@ theorem mem_eraseRing {k : Nat} : ∀ {tbl : List (OpenRing A)} {o : OpenRing A}
       · exact Or.inl rfl
       · exact Or.inr (mem_eraseRing h)
 
-theorem findRing_mem {k : Nat} : ∀ {tbl : List (OpenRing A)} {o : OpenRing A}, findRing k tbl = some o → o ∈ tbl
+theorem findRing_mem {k : Nat} : ∀ {tbl : List (OpenRing B)} {o : OpenRing B}, findRing k tbl = some o → o ∈ tbl
   | [], _, h => by simp [findRing] at h
   | o' :: tl, o, h => by
     unfold findRing at h
@@ -105,7 +142,7 @@ theorem findRing_mem {k : Nat} : ∀ {tbl : List (OpenRing A)} {o : OpenRing A},
     · simp [findRing_mem h]
 
 /-- the opening atom of every open ring has the recorded aromatic/aliphatic type -/
-def TypesOK (st : PState) (tbl : List (OpenRing A)) : Prop := ∀ o ∈ tbl, st.types[o.atom]? = some (tyOf o.pay)
+def TypesOK (st : PState) (tbl : List (OpenRing B)) : Prop := ∀ o ∈ tbl, st.types[o.atom]? = some (tyOf o.pay.1)
 
 theorem toToks_noOther (l : List (Sym A)) : ∀ t ∈ toToks l, noOther t = true := by
   intro t ht
@@ -214,10 +251,10 @@ theorem tyOf_eq8 (a : A) : (tyOf a == 8) = a.1 := by
   cases b <;> rfl
 
 /-- reading the ring-closure number itself, with the bond symbol (if any) already in `previous` -/
-theorem ring_cyc_step (st : PState) (a : A) (sym : RSym) (num : Nat) (tbl tbl1 : List (OpenRing A))
-    (b1 : List (Nat × Nat × Nat)) (hp : st.previous = toPB sym) (hlty : st.types[st.lastNum]? = some (tyOf a))
+theorem ring_cyc_step (st : PState) (a : B) (sym : RSym) (num : Nat) (tbl tbl1 : List (OpenRing B))
+    (b1 : List (Nat × Nat × Nat)) (hp : st.previous = toPB sym) (hlty : st.types[st.lastNum]? = some (tyOf a.1))
     (hI : PInv st) (hop : st.opened = false) (hC : CycRel st.cycles tbl) (hT : TypesOK st tbl)
-    (hs : ringOne (·.1) tbl st.lastNum a ⟨sym, num⟩ = some (tbl1, b1)) :
+    (hs : ringOne aromB tbl st.lastNum a ⟨sym, num⟩ = some (tbl1, b1)) :
     ∃ st1, pstep false st (.cyc num) = .ok st1 ∧ st1.bonds = st.bonds ++ b1 ∧ st1.atoms = st.atoms ∧
       st1.types = st.types ∧ st1.atomNum = st.atomNum ∧ st1.lastNum = st.lastNum ∧ st1.stack = st.stack ∧
       st1.previous = none ∧ st1.opened = false ∧ CycRel st1.cycles tbl1 := by
@@ -243,17 +280,17 @@ theorem ring_cyc_step (st : PState) (a : A) (sym : RSym) (num : Nat) (tbl tbl1 :
     split at hs
     · cases hs
     · rename_i hne
-      cases hro : ringOrder (o.pay.1 && a.1) o.sym sym with
+      cases hro : ringOrder (aromB o.pay && aromB a) o.sym sym with
       | none => rw [hro] at hs; cases hs
       | some ord =>
         rw [hro] at hs
         dsimp only at hs
         cases hs
         obtain ⟨c, hl, hca, hcb⟩ := cycRel_lookup_some st.cycles tbl num o hC hf
-        have hy : st.types[c.atom]? = some (tyOf o.pay) := by rw [hca]; exact hT o (findRing_mem hf)
-        have hro' : ringOrder (tyOf a == 8 && tyOf o.pay == 8) o.sym sym = some ord := by
+        have hy : st.types[c.atom]? = some (tyOf o.pay.1) := by rw [hca]; exact hT o (findRing_mem hf)
+        have hro' : ringOrder (tyOf a.1 == 8 && tyOf o.pay.1 == 8) o.sym sym = some ord := by
           rw [tyOf_eq8, tyOf_eq8, Bool.and_comm]; exact hro
-        obtain ⟨sb, lg, hcl⟩ := closeBond_spec st c o.sym sym (tyOf a) (tyOf o.pay) ord hcb hp hlty hy hro'
+        obtain ⟨sb, lg, hcl⟩ := closeBond_spec st c o.sym sym (tyOf a.1) (tyOf o.pay.1) ord hcb hp hlty hy hro'
         have hmem := lookupNat_mem num st.cycles c hl
         obtain ⟨_, hci, _⟩ := hI.cycles _ hmem
         obtain ⟨o', ho', _⟩ := orderSet_some st.order c.atom c.ind (some st.lastNum) hci
@@ -266,10 +303,10 @@ theorem ring_cyc_step (st : PState) (a : A) (sym : RSym) (num : Nat) (tbl tbl1 :
         exact cycRel_erase _ _ _ hC
 
 /-- reading one written ring bond (optional bond symbol + number) after the current atom -/
-theorem ring_one_run (st : PState) (a : A) (rb : RingBond) (tbl tbl1 : List (OpenRing A))
-    (b1 : List (Nat × Nat × Nat)) (hR : Ready st a) (hI : PInv st) (hop : st.opened = false)
+theorem ring_one_run (st : PState) (a : B) (rb : RingBond) (tbl tbl1 : List (OpenRing B))
+    (b1 : List (Nat × Nat × Nat)) (hR : Ready st a.1) (hI : PInv st) (hop : st.opened = false)
     (hC : CycRel st.cycles tbl) (hT : TypesOK st tbl)
-    (hs : ringOne (·.1) tbl st.lastNum a rb = some (tbl1, b1)) :
+    (hs : ringOne aromB tbl st.lastNum a rb = some (tbl1, b1)) :
     ∃ st1, prun false st (toToks (printRing rb)) = .ok st1 ∧ st1.bonds = st.bonds ++ b1 ∧ st1.atoms = st.atoms ∧
       st1.types = st.types ∧ st1.atomNum = st.atomNum ∧ st1.lastNum = st.lastNum ∧ st1.stack = st.stack ∧
       st1.previous = none ∧ st1.opened = false ∧ CycRel st1.cycles tbl1 := by
@@ -305,11 +342,10 @@ theorem ring_one_run (st : PState) (a : A) (rb : RingBond) (tbl tbl1 : List (Ope
     show prun false st [Tok.dir b, Tok.cyc num] = .ok st1
     simp only [prun, e1, h1]
 
-theorem ringOne_typesOK (st : PState) (a : A) (rb : RingBond) (tbl tbl1 : List (OpenRing A))
-    (b1 : List (Nat × Nat × Nat)) (hlty : st.types[st.lastNum]? = some (tyOf a)) (hT : TypesOK st tbl)
-    (hs : ringOne (·.1) tbl st.lastNum a rb = some (tbl1, b1)) : TypesOK st tbl1 := by
+theorem ringOne_typesOK (st : PState) (a : B) (rb : RingBond) (tbl tbl1 : List (OpenRing B))
+    (b1 : List (Nat × Nat × Nat)) (hlty : st.types[st.lastNum]? = some (tyOf a.1)) (hT : TypesOK st tbl)
+    (hs : ringOne aromB tbl st.lastNum a rb = some (tbl1, b1)) : TypesOK st tbl1 := by
   unfold ringOne at hs
-  dsimp only at hs
   split at hs
   · cases hs
     intro o ho
@@ -326,9 +362,9 @@ theorem ringOne_typesOK (st : PState) (a : A) (rb : RingBond) (tbl tbl1 : List (
       · cases hs
 
 /-- reading all ring bonds written after the current atom -/
-theorem ring_all_run : ∀ (rbs : List RingBond) (st : PState) (a : A) (tbl tbl1 : List (OpenRing A))
-    (b1 : List (Nat × Nat × Nat)), Ready st a → PInv st → st.opened = false → CycRel st.cycles tbl → TypesOK st tbl →
-    ringAll (·.1) st.lastNum a tbl rbs = some (tbl1, b1) →
+theorem ring_all_run : ∀ (rbs : List RingBond) (st : PState) (a : B) (tbl tbl1 : List (OpenRing B))
+    (b1 : List (Nat × Nat × Nat)), Ready st a.1 → PInv st → st.opened = false → CycRel st.cycles tbl → TypesOK st tbl →
+    ringAll aromB st.lastNum a tbl rbs = some (tbl1, b1) →
     ∃ st1, prun false st (toToks (printRings rbs)) = .ok st1 ∧ st1.bonds = st.bonds ++ b1 ∧ st1.atoms = st.atoms ∧
       st1.types = st.types ∧ st1.atomNum = st.atomNum ∧ st1.lastNum = st.lastNum ∧ st1.stack = st.stack ∧
       st1.previous = none ∧ st1.opened = false ∧ CycRel st1.cycles tbl1 ∧ PInv st1 ∧ TypesOK st1 tbl1
@@ -338,13 +374,13 @@ theorem ring_all_run : ∀ (rbs : List RingBond) (st : PState) (a : A) (tbl tbl1
     exact ⟨st, rfl, by simp, rfl, rfl, rfl, rfl, rfl, hR.prev, hop, hC, hI, hT⟩
   | rb :: rest, st, a, tbl, tbl1, b1, hR, hI, hop, hC, hT, hs => by
     unfold ringAll at hs
-    cases h1 : ringOne (·.1) tbl st.lastNum a rb with
+    cases h1 : ringOne aromB tbl st.lastNum a rb with
     | none => rw [h1] at hs; cases hs
     | some p =>
       obtain ⟨tblA, bA⟩ := p
       rw [h1] at hs
       dsimp only at hs
-      cases h2 : ringAll (·.1) st.lastNum a tblA rest with
+      cases h2 : ringAll aromB st.lastNum a tblA rest with
       | none => rw [h2] at hs; cases hs
       | some q =>
         obtain ⟨tbl2, b2⟩ := q
@@ -354,7 +390,7 @@ theorem ring_all_run : ∀ (rbs : List RingBond) (st : PState) (a : A) (tbl tbl1
         obtain ⟨rfl, rfl⟩ := hs
         obtain ⟨stA, eA, fb, fa, ft, fn, fl, fs, fp, fo, fc⟩ := ring_one_run st a rb tbl tblA bA hR hI hop hC hT h1
         have hIA : PInv stA := pinv_of_run hI (toToks_noOther _) eA
-        have hRA : Ready stA a := ⟨fp, by rw [fa, fn]; exact hR.alen, by rw [ft, fn]; exact hR.tlen,
+        have hRA : Ready stA a.1 := ⟨fp, by rw [fa, fn]; exact hR.alen, by rw [ft, fn]; exact hR.tlen,
           by rw [fl, fn]; exact hR.last, by rw [fl, ft]; exact hR.lty⟩
         have hTA : TypesOK stA tblA := by
           intro o ho
@@ -399,16 +435,16 @@ theorem link_atom_run (st : PState) (pa a : A) (l : Link) (h : Ready st pa) :
     refine ⟨_, by simp [toToks, printLink, symTok, prun, pstep, hne, hp, hl]; rfl, ?_, rfl, rfl⟩
     exact ⟨by simp [strip], by simp, by simp [linkBonds], by simp, rfl, rfl, rfl⟩
 
-theorem typesOK_append (st st1 : PState) (tbl : List (OpenRing A)) (extra : List Nat)
+theorem typesOK_append (st st1 : PState) (tbl : List (OpenRing B)) (extra : List Nat)
     (ht : st1.types = st.types ++ extra) (hT : TypesOK st tbl) : TypesOK st1 tbl := by
   intro o ho
   rw [ht]
   exact getElem?_append_left' _ _ _ _ (hT o ho)
 
 /-- what holds after a run that read some atoms `as`, bonds `bs` and left the ring table `tbl'` -/
-structure After (st st' : PState) (as : List A) (bs : List (Nat × Nat × Nat)) (tbl' : List (OpenRing A)) : Prop where
-  atoms : st'.atoms = st.atoms ++ as.map strip
-  types : st'.types = st.types ++ as.map tyOf
+structure After (st st' : PState) (as : List B) (bs : List (Nat × Nat × Nat)) (tbl' : List (OpenRing B)) : Prop where
+  atoms : st'.atoms = st.atoms ++ as.map (fun b => strip b.1)
+  types : st'.types = st.types ++ as.map (fun b => tyOf b.1)
   bonds : st'.bonds = st.bonds ++ bs
   num : st'.atomNum = st.atomNum + as.length
   stack : st'.stack = st.stack
@@ -419,21 +455,21 @@ structure After (st st' : PState) (as : List A) (bs : List (Nat × Nat × Nat)) 
   tys : TypesOK st' tbl'
 
 /-- `link atom ringbond*` -/
-theorem link_atom_rings_run (rbs : A → List RingBond) (st : PState) (pa a : A) (l : Link)
-    (tbl tbl1 : List (OpenRing A)) (rb1 : List (Nat × Nat × Nat)) (hR : Ready st pa) (hI : PInv st)
+theorem link_atom_rings_run (st : PState) (pa a : B) (l : Link)
+    (tbl tbl1 : List (OpenRing B)) (rb1 : List (Nat × Nat × Nat)) (hR : Ready st pa.1) (hI : PInv st)
     (hC : CycRel st.cycles tbl) (hT : TypesOK st tbl)
-    (hs : ringAll (·.1) st.atomNum a tbl (rbs a) = some (tbl1, rb1)) :
-    ∃ st1, prun false st (toToks (printLink l ++ printAtomR rbs a)) = .ok st1 ∧
-      After st st1 [a] (linkBonds (·.1) l st.atomNum st.lastNum a pa ++ rb1) tbl1 ∧ st1.lastNum = st.atomNum ∧
-      Ready st1 a := by
-  obtain ⟨stA, eA, xA, hlA, hoA⟩ := link_atom_run st pa a l hR
+    (hs : ringAll aromB st.atomNum a tbl a.2 = some (tbl1, rb1)) :
+    ∃ st1, prun false st (toToksB (printLink l ++ printAtomR (·.2) a)) = .ok st1 ∧
+      After st st1 [a] (linkBonds aromB l st.atomNum st.lastNum a pa ++ rb1) tbl1 ∧ st1.lastNum = st.atomNum ∧
+      Ready st1 a.1 := by
+  obtain ⟨stA, eA, xA, hlA, hoA⟩ := link_atom_run st pa.1 a.1 l hR
   have hIA : PInv stA := pinv_of_run hI (by
     intro t ht
     simp only [List.mem_append, List.mem_singleton] at ht
     rcases ht with ht | rfl
     · exact toToks_noOther _ t ht
     · rfl) eA
-  have hRA : Ready stA a := by
+  have hRA : Ready stA a.1 := by
     refine ⟨xA.prev, ?_, ?_, ?_, ?_⟩
     · rw [xA.atoms, xA.num]; simp [hR.alen]
     · rw [xA.types, xA.num]; simp [hR.tlen]
@@ -445,42 +481,45 @@ theorem link_atom_rings_run (rbs : A → List RingBond) (st : PState) (pa a : A)
   have hTA : TypesOK stA tbl := typesOK_append st stA tbl _ xA.types hT
   rw [← hlA] at hs
   obtain ⟨st1, e1, gb, ga, gt, gn, gl, gs, gp, go, gc, gi, gT⟩ :=
-    ring_all_run (rbs a) stA a tbl tbl1 rb1 hRA hIA hoA hCA hTA hs
-  refine ⟨st1, ?_, ⟨by rw [ga, xA.atoms], by rw [gt, xA.types], by rw [gb, xA.bonds]; simp,
-    by rw [gn, xA.num], by rw [gs, xA.stack], gp, go, gc, gi, gT⟩, by rw [gl, hlA],
+    ring_all_run a.2 stA a tbl tbl1 rb1 hRA hIA hoA hCA hTA hs
+  refine ⟨st1, ?_, ⟨by rw [ga, xA.atoms]; simp, by rw [gt, xA.types]; simp, by rw [gb, xA.bonds, linkBonds_B]; simp,
+    by rw [gn, xA.num]; simp, by rw [gs, xA.stack], gp, go, gc, gi, gT⟩, by rw [gl, hlA],
     ⟨gp, by rw [ga, gn]; exact hRA.alen, by rw [gt, gn]; exact hRA.tlen, by rw [gl, gn]; exact hRA.last,
       by rw [gl, gt]; exact hRA.lty⟩⟩
-  have : toToks (printLink l ++ printAtomR rbs a) =
-      (toToks (printLink l) ++ [symTok (.atom a)]) ++ toToks (printRings (rbs a)) := by
-    simp [toToks, printAtomR]
+  have : toToksB (printLink l ++ printAtomR (·.2) a) =
+      (toToks (printLink l) ++ [symTok (.atom a.1)]) ++ toToks (printRings a.2) := by
+    have h1 := toToksB_printLink l
+    have h2 := toToksB_printRings a.2
+    simp only [toToksB, toToks] at h1 h2
+    simp [toToksB, toToks, printAtomR, symTokB, symTok, h1, h2]
   rw [this, prun_append, eA]
   exact e1
 
-theorem After.trans {st st1 st2 : PState} {as1 as2 : List A} {bs1 bs2 : List (Nat × Nat × Nat)}
-    {t1 t2 : List (OpenRing A)} (h1 : After st st1 as1 bs1 t1) (h2 : After st1 st2 as2 bs2 t2) :
+theorem After.trans {st st1 st2 : PState} {as1 as2 : List B} {bs1 bs2 : List (Nat × Nat × Nat)}
+    {t1 t2 : List (OpenRing B)} (h1 : After st st1 as1 bs1 t1) (h2 : After st1 st2 as2 bs2 t2) :
     After st st2 (as1 ++ as2) (bs1 ++ bs2) t2 :=
   ⟨by rw [h2.atoms, h1.atoms]; simp, by rw [h2.types, h1.types]; simp, by rw [h2.bonds, h1.bonds]; simp,
    by rw [h2.num, h1.num]; simp; omega, by rw [h2.stack, h1.stack], h2.prev, h2.opened, h2.cyc, h2.inv, h2.tys⟩
 
 /-- **simulation with ring closures** -/
-theorem prun_printKR (rbs : A → List RingBond) : ∀ (k : K A) (st : PState) (pa : A) (tbl : List (OpenRing A))
-    (as : List A) (bs : List (Nat × Nat × Nat)) (tbl' : List (OpenRing A)),
-    Ready st pa → PInv st → st.opened = false → CycRel st.cycles tbl → TypesOK st tbl →
-    denoteKR (·.1) rbs st.lastNum pa st.atomNum tbl k = some (as, bs, tbl') →
-    ∃ st', prun false st (toToks (printKR rbs k)) = .ok st' ∧ After st st' as bs tbl' ∧ st'.lastNum < st'.atomNum
+theorem prun_printKR : ∀ (k : K B) (st : PState) (pa : B) (tbl : List (OpenRing B))
+    (as : List B) (bs : List (Nat × Nat × Nat)) (tbl' : List (OpenRing B)),
+    Ready st pa.1 → PInv st → st.opened = false → CycRel st.cycles tbl → TypesOK st tbl →
+    denoteKR aromB (·.2) st.lastNum pa st.atomNum tbl k = some (as, bs, tbl') →
+    ∃ st', prun false st (toToksB (printKR (·.2) k)) = .ok st' ∧ After st st' as bs tbl' ∧ st'.lastNum < st'.atomNum
   | .done, st, pa, tbl, as, bs, tbl', hR, hI, hop, hC, hT, hd => by
     simp only [denoteKR, Option.some.injEq, Prod.mk.injEq] at hd
     obtain ⟨rfl, rfl, rfl⟩ := hd
     exact ⟨st, rfl, ⟨by simp, by simp, by simp, by simp, rfl, hR.prev, hop, hC, hI, hT⟩, hR.last⟩
   | .next l a k, st, pa, tbl, as, bs, tbl', hR, hI, hop, hC, hT, hd => by
     unfold denoteKR at hd
-    cases h1 : ringAll (·.1) st.atomNum a tbl (rbs a) with
+    cases h1 : ringAll aromB st.atomNum a tbl a.2 with
     | none => rw [h1] at hd; cases hd
     | some p1 =>
       obtain ⟨tbl1, rb1⟩ := p1
       rw [h1] at hd
       dsimp only at hd
-      cases h2 : denoteKR (·.1) rbs st.atomNum a (st.atomNum + 1) tbl1 k with
+      cases h2 : denoteKR aromB (·.2) st.atomNum a (st.atomNum + 1) tbl1 k with
       | none => rw [h2] at hd; cases hd
       | some p2 =>
         obtain ⟨as1, bs1, tbl2⟩ := p2
@@ -488,31 +527,31 @@ theorem prun_printKR (rbs : A → List RingBond) : ∀ (k : K A) (st : PState) (
         dsimp only at hd
         simp only [Option.some.injEq, Prod.mk.injEq] at hd
         obtain ⟨rfl, rfl, rfl⟩ := hd
-        obtain ⟨st1, e1, a1, hl1, hR1⟩ := link_atom_rings_run rbs st pa a l tbl tbl1 rb1 hR hI hC hT h1
+        obtain ⟨st1, e1, a1, hl1, hR1⟩ := link_atom_rings_run st pa a l tbl tbl1 rb1 hR hI hC hT h1
         have hn1 : st1.atomNum = st.atomNum + 1 := by rw [a1.num]; rfl
-        have h2' : denoteKR (·.1) rbs st1.lastNum a st1.atomNum tbl1 k = some (as1, bs1, tbl2) := by
+        have h2' : denoteKR aromB (·.2) st1.lastNum a st1.atomNum tbl1 k = some (as1, bs1, tbl2) := by
           rw [hl1, hn1]; exact h2
-        obtain ⟨st2, e2, a2, hl2⟩ := prun_printKR rbs k st1 a tbl1 as1 bs1 tbl2 hR1 a1.inv a1.opened a1.cyc a1.tys h2'
+        obtain ⟨st2, e2, a2, hl2⟩ := prun_printKR k st1 a tbl1 as1 bs1 tbl2 hR1 a1.inv a1.opened a1.cyc a1.tys h2'
         refine ⟨st2, ?_, by simpa using a1.trans a2, hl2⟩
-        have : toToks (printKR rbs (.next l a k)) = toToks (printLink l ++ printAtomR rbs a) ++ toToks (printKR rbs k) := by
-          simp [printKR, toToks]
+        have : toToksB (printKR (·.2) (.next l a k)) = toToksB (printLink l ++ printAtomR (·.2) a) ++ toToksB (printKR (·.2) k) := by
+          simp [printKR, toToksB]
         rw [this, prun_append, e1]
         exact e2
   | .side l a inner k, st, pa, tbl, as, bs, tbl', hR, hI, hop, hC, hT, hd => by
     unfold denoteKR at hd
-    cases h1 : ringAll (·.1) st.atomNum a tbl (rbs a) with
+    cases h1 : ringAll aromB st.atomNum a tbl a.2 with
     | none => rw [h1] at hd; cases hd
     | some p1 =>
       obtain ⟨tbl1, rb1⟩ := p1
       rw [h1] at hd
       dsimp only at hd
-      cases h2 : denoteKR (·.1) rbs st.atomNum a (st.atomNum + 1) tbl1 inner with
+      cases h2 : denoteKR aromB (·.2) st.atomNum a (st.atomNum + 1) tbl1 inner with
       | none => rw [h2] at hd; cases hd
       | some p2 =>
         obtain ⟨as1, bs1, tbl2⟩ := p2
         rw [h2] at hd
         dsimp only at hd
-        cases h3 : denoteKR (·.1) rbs st.lastNum pa (st.atomNum + 1 + as1.length) tbl2 k with
+        cases h3 : denoteKR aromB (·.2) st.lastNum pa (st.atomNum + 1 + as1.length) tbl2 k with
         | none => rw [h3] at hd; cases hd
         | some p3 =>
           obtain ⟨as2, bs2, tbl3⟩ := p3
@@ -532,17 +571,17 @@ theorem prun_printKR (rbs : A → List RingBond) : ∀ (k : K A) (st : PState) (
           have b0 : st0.bonds = st.bonds := by rw [hst0]
           have s0 : st0.stack = st.lastNum :: st.stack := by rw [hst0]
           have c0 : st0.cycles = st.cycles := by rw [hst0]
-          have hR0 : Ready st0 pa := by rw [hst0]; exact ⟨hR.prev, hR.alen, hR.tlen, hR.last, hR.lty⟩
+          have hR0 : Ready st0 pa.1 := by rw [hst0]; exact ⟨hR.prev, hR.alen, hR.tlen, hR.last, hR.lty⟩
           clear hst0
           have hC0 : CycRel st0.cycles tbl := by rw [c0]; exact hC
           have hT0 : TypesOK st0 tbl := by intro o ho; rw [t0]; exact hT o ho
           rw [← n0] at h1
-          obtain ⟨st1, e1, a1, hl1, hR1⟩ := link_atom_rings_run rbs st0 pa a l tbl tbl1 rb1 hR0 hI0 hC0 hT0 h1
+          obtain ⟨st1, e1, a1, hl1, hR1⟩ := link_atom_rings_run st0 pa a l tbl tbl1 rb1 hR0 hI0 hC0 hT0 h1
           have hn1 : st1.atomNum = st.atomNum + 1 := by rw [a1.num, n0]; rfl
           rw [n0] at hl1
-          have h2' : denoteKR (·.1) rbs st1.lastNum a st1.atomNum tbl1 inner = some (as1, bs1, tbl2) := by
+          have h2' : denoteKR aromB (·.2) st1.lastNum a st1.atomNum tbl1 inner = some (as1, bs1, tbl2) := by
             rw [hl1, hn1]; exact h2
-          obtain ⟨st2, e2, a2, _⟩ := prun_printKR rbs inner st1 a tbl1 as1 bs1 tbl2 hR1 a1.inv a1.opened a1.cyc a1.tys h2'
+          obtain ⟨st2, e2, a2, _⟩ := prun_printKR inner st1 a tbl1 as1 bs1 tbl2 hR1 a1.inv a1.opened a1.cyc a1.tys h2'
           -- ')'
           have hstack : st2.stack = st.lastNum :: st.stack := by rw [a2.stack, a1.stack, s0]
           obtain ⟨st3, hst3⟩ : ∃ st3 : PState, st3 = { st2 with lastNum := st.lastNum, stack := st.stack } := ⟨_, rfl⟩
@@ -561,9 +600,9 @@ theorem prun_printKR (rbs : A → List RingBond) : ∀ (k : K A) (st : PState) (
           clear hst3
           have a12 := a1.trans a2
           have hnum2 : st2.atomNum = st.atomNum + 1 + as1.length := by rw [a12.num, n0]; simp; omega
-          have hty2 : st2.types = st.types ++ (tyOf a :: as1.map tyOf) := by rw [a12.types, t0]; simp
-          have hat2 : st2.atoms = st.atoms ++ (strip a :: as1.map strip) := by rw [a12.atoms, a0]; simp
-          have hR3 : Ready st3 pa := by
+          have hty2 : st2.types = st.types ++ (tyOf a.1 :: as1.map (fun b => tyOf b.1)) := by rw [a12.types, t0]; simp
+          have hat2 : st2.atoms = st.atoms ++ (strip a.1 :: as1.map (fun b => strip b.1)) := by rw [a12.atoms, a0]; simp
+          have hR3 : Ready st3 pa.1 := by
             refine ⟨by rw [p3]; exact a2.prev, ?_, ?_, ?_, ?_⟩
             · rw [a3, n3, hat2, hnum2]; simp [hR.alen]; omega
             · rw [t3, n3, hty2, hnum2]; simp [hR.tlen]; omega
@@ -571,14 +610,14 @@ theorem prun_printKR (rbs : A → List RingBond) : ∀ (k : K A) (st : PState) (
             · rw [l3, t3, hty2]; exact getElem?_append_left' _ _ _ _ hR.lty
           have hC3 : CycRel st3.cycles tbl2 := by rw [c3]; exact a2.cyc
           have hT3 : TypesOK st3 tbl2 := by intro o ho; rw [t3]; exact a2.tys o ho
-          have h3' : denoteKR (·.1) rbs st3.lastNum pa st3.atomNum tbl2 k = some (as2, bs2, tbl3) := by
+          have h3' : denoteKR aromB (·.2) st3.lastNum pa st3.atomNum tbl2 k = some (as2, bs2, tbl3) := by
             rw [l3, n3, hnum2]; exact h3
-          obtain ⟨st4, e4, a4, hl4⟩ := prun_printKR rbs k st3 pa tbl2 as2 bs2 tbl3 hR3 hI3 (by rw [o3]; exact a2.opened) hC3 hT3 h3'
+          obtain ⟨st4, e4, a4, hl4⟩ := prun_printKR k st3 pa tbl2 as2 bs2 tbl3 hR3 hI3 (by rw [o3]; exact a2.opened) hC3 hT3 h3'
           refine ⟨st4, ?_, ?_, hl4⟩
-          · have : toToks (printKR rbs (.side l a inner k)) =
-                [Tok.lpar] ++ (toToks (printLink l ++ printAtomR rbs a) ++ (toToks (printKR rbs inner) ++
-                  ([Tok.rpar] ++ toToks (printKR rbs k)))) := by
-              simp [printKR, toToks, symTok]
+          · have : toToksB (printKR (·.2) (.side l a inner k)) =
+                [Tok.lpar] ++ (toToksB (printLink l ++ printAtomR (·.2) a) ++ (toToksB (printKR (·.2) inner) ++
+                  ([Tok.rpar] ++ toToksB (printKR (·.2) k)))) := by
+              simp [printKR, toToksB, symTokB]
             rw [this, prun_append, e0]
             dsimp only
             rw [prun_append, e1]
@@ -592,19 +631,19 @@ theorem prun_printKR (rbs : A → List RingBond) : ∀ (k : K A) (st : PState) (
               by rw [a4.num, n3, hnum2]; simp; omega, by rw [a4.stack, s3], a4.prev, a4.opened, a4.cyc, a4.inv, a4.tys⟩
 
 /-- **the parser builds exactly the denoted graph, ring closures included** (default `strong_cycle = False`) -/
-theorem parse_printR (rbs : A → List RingBond) (c : Chain A) (g : Graph A) (hd : denoteR (·.1) rbs c = some g) :
-    ∃ st, parse false (toToks (printR rbs c)) = .ok st ∧
-      st.atoms = g.atoms.map strip ∧ st.types = g.atoms.map tyOf ∧ st.bonds = g.bonds := by
+theorem parse_printR (c : Chain B) (g : Graph B) (hd : denoteR aromB (·.2) c = some g) :
+    ∃ st, parse false (toToksB (printR (·.2) c)) = .ok st ∧
+      st.atoms = g.atoms.map (fun b => strip b.1) ∧ st.types = g.atoms.map (fun b => tyOf b.1) ∧ st.bonds = g.bonds := by
   obtain ⟨a0, k⟩ := c
   unfold denoteR at hd
   dsimp only at hd
-  cases h0 : ringAll (·.1) 0 a0 [] (rbs a0) with
+  cases h0 : ringAll aromB 0 a0 [] a0.2 with
   | none => rw [h0] at hd; cases hd
   | some p0 =>
     obtain ⟨tbl0, rb0⟩ := p0
     rw [h0] at hd
     dsimp only at hd
-    cases h1 : denoteKR (·.1) rbs 0 a0 1 tbl0 k with
+    cases h1 : denoteKR aromB (·.2) 0 a0 1 tbl0 k with
     | none => rw [h1] at hd; cases hd
     | some p1 =>
       obtain ⟨as, bs, tbl⟩ := p1
@@ -618,48 +657,49 @@ theorem parse_printR (rbs : A → List RingBond) (c : Chain A) (g : Graph A) (hd
         | nil => rfl
         | cons _ _ => simp at hemp
       -- first atom
-      obtain ⟨st1, hst1⟩ : ∃ st1 : PState, pstep false {} (Tok.atom (tyOf a0) a0.2) = .ok st1 ∧
-          st1.atoms = [strip a0] ∧ st1.types = [tyOf a0] ∧ st1.bonds = [] ∧ st1.atomNum = 1 ∧ st1.lastNum = 0 ∧
+      obtain ⟨st1, hst1⟩ : ∃ st1 : PState, pstep false {} (Tok.atom (tyOf a0.1) a0.1.2) = .ok st1 ∧
+          st1.atoms = [strip a0.1] ∧ st1.types = [tyOf a0.1] ∧ st1.bonds = [] ∧ st1.atomNum = 1 ∧ st1.lastNum = 0 ∧
           st1.stack = [] ∧ st1.cycles = [] ∧ st1.previous = none ∧ st1.opened = false :=
         ⟨_, rfl, rfl, rfl, rfl, rfl, rfl, rfl, rfl, rfl, rfl⟩
       obtain ⟨e1, a1, t1, b1, n1, l1, s1, c1, p1, o1⟩ := hst1
       have hI1 : PInv st1 := by
-        have := pstep_inv false {} (Tok.atom (tyOf a0) a0.2)
-        obtain ⟨st1', h1', hinv⟩ := first_atom_inv false (tyOf a0) a0.2 [] false (by simp)
+        obtain ⟨st1', h1', hinv⟩ := first_atom_inv false (tyOf a0.1) a0.1.2 [] false (by simp)
         have : st1' = st1 := by
-          have e1' : pstep false { stack := [], opened := false } (Tok.atom (tyOf a0) a0.2) = .ok st1 := e1
+          have e1' : pstep false { stack := [], opened := false } (Tok.atom (tyOf a0.1) a0.1.2) = .ok st1 := e1
           rw [h1'] at e1'; cases e1'; rfl
         rw [← this]; exact hinv
-      have hR1 : Ready st1 a0 := ⟨p1, by rw [a1, n1]; rfl, by rw [t1, n1]; rfl, by rw [l1, n1]; exact Nat.one_pos,
+      have hR1 : Ready st1 a0.1 := ⟨p1, by rw [a1, n1]; rfl, by rw [t1, n1]; rfl, by rw [l1, n1]; exact Nat.one_pos,
         by rw [l1, t1]; rfl⟩
-      have hC1 : CycRel st1.cycles ([] : List (OpenRing A)) := by rw [c1]; trivial
+      have hC1 : CycRel st1.cycles ([] : List (OpenRing B)) := by rw [c1]; trivial
       have hT1 : TypesOK st1 [] := by intro o ho; cases ho
-      have h0' : ringAll (·.1) st1.lastNum a0 [] (rbs a0) = some (tbl0, rb0) := by rw [l1]; exact h0
+      have h0' : ringAll aromB st1.lastNum a0 [] a0.2 = some (tbl0, rb0) := by rw [l1]; exact h0
       obtain ⟨stR, eR, gb, ga, gt, gn, gl, gs, gp, go, gc, gi, gT⟩ :=
-        ring_all_run (rbs a0) st1 a0 [] tbl0 rb0 hR1 hI1 o1 hC1 hT1 h0'
-      have hRR : Ready stR a0 := ⟨gp, by rw [ga, gn]; exact hR1.alen, by rw [gt, gn]; exact hR1.tlen,
+        ring_all_run a0.2 st1 a0 [] tbl0 rb0 hR1 hI1 o1 hC1 hT1 h0'
+      have hRR : Ready stR a0.1 := ⟨gp, by rw [ga, gn]; exact hR1.alen, by rw [gt, gn]; exact hR1.tlen,
         by rw [gl, gn]; exact hR1.last, by rw [gl, gt]; exact hR1.lty⟩
-      have h1' : denoteKR (·.1) rbs stR.lastNum a0 stR.atomNum tbl0 k = some (as, bs, tbl) := by
+      have h1' : denoteKR aromB (·.2) stR.lastNum a0 stR.atomNum tbl0 k = some (as, bs, tbl) := by
         rw [gl, gn, l1, n1]; exact h1
-      obtain ⟨st2, e2, a2, _⟩ := prun_printKR rbs k stR a0 tbl0 as bs tbl hRR gi go gc gT h1'
+      obtain ⟨st2, e2, a2, _⟩ := prun_printKR k stR a0 tbl0 as bs tbl hRR gi go gc gT h1'
       have hcyc : st2.cycles = [] := by
         have := a2.cyc
         rw [htbl] at this
         exact cycRel_nil_right _ this
       refine ⟨st2, ?_, ?_, ?_, ?_⟩
-      · have hrun : prun false {} (toToks (printR rbs ⟨a0, k⟩)) = .ok st2 := by
-          have : toToks (printR rbs ⟨a0, k⟩) =
-              [Tok.atom (tyOf a0) a0.2] ++ (toToks (printRings (rbs a0)) ++ toToks (printKR rbs k)) := by
-            simp [printR, printAtomR, toToks, symTok]
+      · have hrun : prun false {} (toToksB (printR (·.2) ⟨a0, k⟩)) = .ok st2 := by
+          have : toToksB (printR (·.2) ⟨a0, k⟩) =
+              [Tok.atom (tyOf a0.1) a0.1.2] ++ (toToks (printRings a0.2) ++ toToksB (printKR (·.2) k)) := by
+            have h2 := toToksB_printRings a0.2
+            simp only [toToksB, toToks] at h2
+            simp [printR, printAtomR, toToksB, toToks, symTokB, h2]
           rw [this, prun_append]
-          have : prun false {} [Tok.atom (tyOf a0) a0.2] = .ok st1 := by simp only [prun, e1]
+          have : prun false {} [Tok.atom (tyOf a0.1) a0.1.2] = .ok st1 := by simp only [prun, e1]
           rw [this]
           dsimp only
           rw [prun_append, eR]
           exact e2
         unfold parse
-        have hstart : startCheck (toToks (printR rbs ⟨a0, k⟩)) = .ok () := by
-          simp [printR, printAtomR, toToks, symTok, startCheck, Tok.isAtom]
+        have hstart : startCheck (toToksB (printR (·.2) ⟨a0, k⟩)) = .ok () := by
+          simp [printR, printAtomR, toToksB, symTokB, startCheck, Tok.isAtom]
         rw [hstart]
         dsimp only
         rw [hrun]
